@@ -1230,6 +1230,10 @@ def getitem(a, idx):
             tags['orth'] = 'RO'
     r = Arr(shape, legs, a.dt, a.buf if view else None, tags, 'getitem')
     r.tags['sel_of'] = (a, tuple(sel))
+    if a.ndim == 1 and a.tags.get('const') == 'eye-reshaped' and sel and sel[0][0] == 'range' and not (is_one(shape[0]) and sz_eq(sel[0][1], 0)):
+        # (the first entry alone is the 1 x 1 identity)
+        # a proper piece of a flattened identity: its ones sit at multiples of (n + 1) for the n it was built with -- it is not the flattened identity of a smaller n
+        CTX.event('eye-slice', array=a, result=r, sel=sel[0], detail=f'a slice {sel[0][1]}:{sel[0][2]} of a flattened {a.tags.get("eye_legs") and "identity" or "identity"} of {a.shape[0]} entries')
     for e_ in reversed(CTX.events[-8:]):
         if e_.get('kind') == 'index-drop' and e_.get('array') is a and 'result' not in e_:
             e_['result'] = r          # (what was selected: a rule may find that the slice is only inspected, e.g. for its sign, and never becomes part of a core)
